@@ -862,8 +862,8 @@ func (r *cnReplica) finalize(b *cnBlock, valset map[int]int64) (res cnBlockResul
 
 // ---- call-by-call execution (observer replica) ----
 
-func (r *cnReplica) beginBlock(b *cnBlock, ci cmtabci.CommitInfo, mis []cmtabci.Misbehavior) {
-	r.mux.BeginBlock(cmtabci.RequestBeginBlock{
+func (r *cnReplica) beginBlock(b *cnBlock, ci cmtabci.CommitInfo, mis []cmtabci.Misbehavior) []cmtabci.Event {
+	return r.mux.BeginBlock(cmtabci.RequestBeginBlock{
 		Hash: b.Hash,
 		Header: cmtproto.Header{
 			Height:          b.Height,
@@ -873,7 +873,20 @@ func (r *cnReplica) beginBlock(b *cnBlock, ci cmtabci.CommitInfo, mis []cmtabci.
 		},
 		LastCommitInfo:      ci,
 		ByzantineValidators: mis,
-	})
+	}).Events
+}
+
+// tookEscrow: the events announce that stake was taken from an escrow account (a slash: consensus evidence, runtime liveness,
+// runtime misbehaviour).
+func tookEscrow(evs []cmtabci.Event) bool {
+	for _, ev := range evs {
+		for _, a := range ev.Attributes {
+			if a.Key == "take_escrow" {
+				return true
+			}
+		}
+	}
+	return false
 }
 
 func (r *cnReplica) deliver(tx []byte) cmtabci.ResponseDeliverTx {
